@@ -189,6 +189,9 @@ var propHarness = map[string]map[string][]string{
 	"C13": {"rddetector.worker_2E4": {"rddetector:columns-2E4"}, "rddetector.worker_1E6": {"rddetector:columns-1E6"}, "rddetector.worker_1E8": {"rddetector:columns-1E8", "rddetector:columns-1E6"}, "*": {"rddetector:columns-2E4"}},
 	"C20": {"*": {"rdgen:output-dir"}},
 	"C15": {"*": {"randomness:entry-points"}},
+	"C17": {"*": {"randomness:symmetry"}},
+	"C16": {"*": {"randomness:monobit", "randomness:runs", "randomness:entry-points"}},
+	"C18": {"*": {"randomness:purity"}},
 	"C19": {"*": {"fft:constructor", "fft:dft-naive", "fft:inverse-roundtrip"}},
 	"C05": {"*": {"randomness:dft"}},
 }
